@@ -482,6 +482,9 @@ func (it *Interp) external(fn *ssa.Function, st *State, instr ssa.CallInstructio
 func (it *Interp) unknownCall(fn *ssa.Function, st *State, instr ssa.CallInstruction, args []AbsVal, nres int, userCode bool) []callResult {
 	if it.Cfg.Hooks != nil {
 		it.Cfg.Hooks.OnDynamic(it.ctx(fn, st), instr, args, userCode)
+		if ret, handled := it.Cfg.Hooks.DynamicResult(it.ctx(fn, st), instr, args); handled {
+			return []callResult{{heap: st.Heap, ret: ret}}
+		}
 	}
 	mayPanic := userCode || it.Cfg.Wide
 	if given := it.callbackTargets(st.Heap, args); len(given) > 0 {
